@@ -215,6 +215,7 @@ def search_native(oset_name, seed, tries=4000):
     o = find_oset(oset_name)
     rng = random.Random(seed)
     ran = 0
+    evaluated = 0
     for _ in range(tries):
         h = RandomHarness(rng, oset_name)
         try:
@@ -223,10 +224,13 @@ def search_native(oset_name, seed, tries=4000):
             continue
         except Exception as e:  # noqa: BLE001
             return {"reproduced": False, "note": f"proof script raised natively during search: {type(e).__name__}: {e}"}
+        if not h.checked:
+            return {"reproduced": False, "note": "this obligation set has no native reading", "tries": 0}
         ran += 1
+        evaluated += len(h.checked)
         if h.failed:
-            return {"reproduced": True, "failed": [f[0] for f in h.failed], "inputs": _jsonable(h.inputs), "tries": ran}
-    return {"reproduced": False, "note": f"bounded native search: {ran} random inputs, no failing one", "tries": ran}
+            return {"reproduced": True, "failed": [f[0] for f in h.failed], "inputs": _jsonable(h.inputs), "tries": ran, "evaluated": evaluated}
+    return {"reproduced": False, "note": f"bounded native search: {ran} random inputs, no failing one", "tries": ran, "evaluated": evaluated}
 
 
 def _jsonable(d):
